@@ -226,7 +226,7 @@ def discharge(site):
             if dty == '[u8; %s]' % m.group(1):
                 return 'try_into of a %s-byte slice into [u8; %s]' % (m.group(1), m.group(1))
         if _guarded(v, bb, [r'^Option::is_some\(' + ea + r'\)$', r'^!Option::is_none\(' + ea + r'\)$', '^' + ea + r' is Some$',
-                            r'^Result::is_ok\(' + ea + r'\)$', r'^!Result::is_err\(' + ea + r'\)$'], at):
+                            r'^Result::is_ok\(' + ea + r'\)$', r'^!Result::is_err\(' + ea + r'\)$', '^' + ea + r' is Ok$'], at):
             return 'dominated by is_some/!is_none test of the same value'
         m = re.match(r'^Option::take\((.*)\)$', at)
         if m:
